@@ -7,6 +7,7 @@ import (
 
 	"github.com/philpearl/plenc/plenccodec"
 	"github.com/philpearl/plenc/plenccore"
+	"github.com/philpearl/plenc/verifhook"
 )
 
 var defaultPlenc Plenc
@@ -68,6 +69,7 @@ type registryKey struct {
 }
 
 func (br *baseRegistry) Load(typ reflect.Type, tag string) plenccodec.Codec {
+	verifhook.At("registry.load", typ)
 	c, ok := br.codecRegistry.Load(registryKey{typ: typ, tag: tag})
 	if !ok {
 		return nil
@@ -80,6 +82,7 @@ func (br *baseRegistry) Store(typ reflect.Type, tag string, c plenccodec.Codec) 
 }
 
 func (br *baseRegistry) StoreOrSwap(typ reflect.Type, tag string, c plenccodec.Codec) plenccodec.Codec {
+	verifhook.At("registry.storeorswap", typ)
 	cv, _ := br.codecRegistry.LoadOrStore(registryKey{typ: typ, tag: tag}, c)
 	return cv.(plenccodec.Codec)
 }
